@@ -127,6 +127,45 @@ func TestVerifC17b(t *testing.T) {
 				}
 			}
 		}
+		// the threshold is the expiration CURRENTLY configured: a sweep that finds nothing, then a configuration
+		// with half the expiration, then a sweep at the same instant
+		if len(ids) > 0 && exp > 2*time.Second {
+			tmp := VerifBuild(sc.Hist)
+			j := tmp.Srv
+			var newest time.Time
+			for _, id := range ids {
+				if la := j.sessions[id].LastActivity; la.After(newest) {
+					newest = la
+				}
+			}
+			now := newest.Add(exp/2 + time.Second)
+			rt.SetFixedNow(now.UnixNano())
+			first := j.ExpireSessions()
+			rt.SetFixedNow(0)
+			res.Sweeps++
+			half := exp / 2
+			cfg := strings.Replace(vCfgBase, `SessionExpiration = "30m"`, fmt.Sprintf("SessionExpiration = %q", half.String()), 1)
+			j.ConfigMu.RLock()
+			rev := j.Config.Revision
+			j.ConfigMu.RUnlock()
+			st := tmp.Apply(VEntry{Type: robust.Config, Id: tmp.NextId(), Data: cfg, Revision: rev + 1, UnixNano: tmp.Now() + 1e9})
+			if st.Panic == nil && time.Duration(j.Config.SessionExpiration) == half {
+				rt.SetFixedNow(now.UnixNano())
+				second := j.ExpireSessions()
+				rt.SetFixedNow(0)
+				res.Sweeps++
+				got := map[robust.Id]bool{}
+				for _, m := range second {
+					got[m.Session] = true
+				}
+				for id, s := range j.sessions {
+					if id.Reply == 0 && now.Sub(s.LastActivity) > half && !got[id] {
+						report(sc.Name, sc.Hist, "idle session not proposed for expiry after the configured expiration was lowered", fmt.Sprintf("scenario %s: sweep at last activity + %v proposed %d deletions, then SessionExpiration %v -> %v, sweep at the same instant: %s (idle %v) is not proposed", sc.Name, exp/2+time.Second, len(first), exp, half, vid(id), now.Sub(s.LastActivity)))
+					}
+				}
+				res.Outcomes["after lowering the expiration"]++
+			}
+		}
 		if len(res.Samples) < 3 {
 			res.Samples = append(res.Samples, fmt.Sprintf("scenario %s: %d sessions x 8 clock positions around the expiration threshold", sc.Name, len(ids)))
 		}
